@@ -165,7 +165,7 @@ def configs(tier):
     # of another provider's span; uniqueness over the union (rep 3: the SDK's default generators)
     rem_p = [rc(fl=0x03, ts="p", hi=3), rc(valid=False, fl=0x01, hi=0)]
     cfgs.append(dict(name="providers", samplers=[{"k": "default"}, pb(ratio(4)), custom("RecordOnly", "replace")],
-                     remotes=rem_p, his=[3, 4], maxspans=4 if th else 3, newroot=[], endmode="none", ctxuntil=4,
+                     remotes=rem_p, his=[3, 4], maxspans=3, newroot=[], endmode="none", ctxuntil=4,
                      nprov=3 if th else 2, reps="0,1,2,3"))
     # C: sampler from OTEL_TRACES_SAMPLER / OTEL_TRACES_SAMPLER_ARG
     rem_c = [rc(sampled=True, ts="p", hi=3), rc(sampled=False, ts="p", hi=4), rc(valid=False, sampled=True, hi=0),
@@ -234,7 +234,8 @@ def run(ctx):
     # ---- spec -> code
     edges_total = 0
     for c in configs(ctx.tier):
-        r = ctx.tlc(S, "MC_Sampling", "MC_Sampling.cfg", defines=defines(c), want_edges=True, name=c["name"], timeout=3000)
+        r = ctx.tlc(S, "MC_Sampling", "MC_Sampling.cfg", defines=defines(c), want_edges=True, name=c["name"], timeout=3000,
+                    heap="4g")
         out = os.path.join(ctx.work, "replay-%s.json" % c["name"])
         ctx.run([binp, "replay", "-edges", r["edges_file"], "-reps", c.get("reps", "0,1,2"), "-par", str(max(2, min(8, (os.cpu_count() or 4) // 2))),
                  "-out", out], timeout=3000)
